@@ -251,7 +251,10 @@ def run_check(pid, cfg, tier, seed, args, t0):
         if allowed is not None and len(u) > allowed:
             undecided.append({'obligation': t + '.reachability', 'reason': 'vacuity guard: %d statements are reached by no '
                               'satisfiable path (%d when the contracts were locked): %s' % (len(u), allowed, '; '.join(u)[:600])})
+    skipped = tuple(cfg.get('quick_skip_targets', [])) if tier == 'quick' else ()
     for oid in sorted(locked - now):
+        if skipped and oid.startswith(tuple(t + '.' for t in skipped)):
+            continue            # verified in the thorough tier only
         # obligations that only exist on exceptional paths vanish when such a path is no longer feasible:
         # that is a success, not a missing proof
         if oid.endswith('.raises_nothing') or oid.endswith('.raises_only') or '.frame[' in oid or '.call[' in oid:
